@@ -294,7 +294,9 @@ partial def loop (h : IO.FS.Stream) (d : D) (c : Case) : IO D := do
                 -- classification for the replay file: port clash of a two-scope ELSE IF / postprocess() changed a value the
                 -- un-postprocessed circuit had right / anything else
                 let sig := if tag == "post" && pre != ["-"] && pre == specS.take nTop then "postprocess-changed-value"
-                           else if B.clash then "elseif2-same-condition-port" else "other"
+                           else if B.clash then "elseif2-same-condition-port"
+                           else if tag == "post" && pre == ["-"] && model.take nTop == specS.take nTop then "postprocess-changed-value"  -- no pre-simulation (Node_Default); the model agrees with the interpreter
+                           else "other"
                 IO.println s!"PROPFAIL case={c.id} sig={sig} stage={tag} inputs=[{inS}] sequential=[{" ".intercalate specS}] impl=[{" ".intercalate impl}]"
                 d := { d with propfails := d.propfails + 1 }
                 c := { c with reportedP := true }
